@@ -79,7 +79,7 @@ func encodeAll(ns []*node) []byte {
 	return out
 }
 
-var tagPool = []int{1, 2, 3, 4, 5, 6, 15, 16, 2047, 2048, 18999, 20000, 1 << 26, 1<<29 - 1}
+var tagPool = []int{1, 2, 3, 4, 5, 6, 15, 16, 2047, 2048, 18999, 20000, 1<<18 - 1, 1 << 18, 1<<25 - 1, 1 << 25, 1 << 26, 1<<29 - 1}
 
 var interesting = []uint64{0, 1, 2, 127, 128, 300, 1<<31 - 1, 1 << 31, 1<<32 - 1, 1 << 32, 1<<63 - 1, 1 << 63, math.MaxUint64, math.MaxUint64 - 1}
 
